@@ -98,3 +98,98 @@ Theorem C05_subst_lemma_mss_partial : forall s t I t',
   subst_mss s t = Some t' -> eval I t' = eval (upd I s) t.
 Proof. exact subst_lemma_mss_partial. Qed.
 Print Assumptions C05_subst_lemma_mss_partial.
+
+(* ====================================================================================================
+   Second part (proofs/SubstituterTyped_proofs.v), using the well-formedness predicate okt and its
+   lemmas okt_sound / bv_width_ok / r_array_value_sound of the C01 development
+   (proofs/SimplifierSemBase_proofs.v, SimplifierSemArr_proofs.v).
+   okt t = "t is built as the FormulaManager builds it": arities, constants in range, Real
+   constants with positive denominator, inhabited sorts, zero/sign-extension payload = operand
+   width + increase, array values in canonical form (constant indexes in the model's order, no
+   default-valued pair).  map_ok s = every replacement term is okt and has the sort of its key.
+   tfrag0 t = no Pow node and no array-value node in t;  afrag t = no Pow node in t (every other
+   operator, array values included);  no_const_keys s = no key is an index constant (true of symbol keys).
+   The substitution lemma (C05_subst_lemma_all_but_pow) and the interpretation lemma now cover EVERY
+   operator except Pow; still _partial because of okt (well-formedness beyond tc), Pow, and - for
+   interpretations - quantifier-free bodies. *)
+From PySMT.proofs Require Import SimplifierSemBase_proofs SubstituterTyped_proofs.
+
+(* subst_typed: type-correct maps - symbol keys AND arbitrary compound keys - preserve the sort
+   and the well-formedness, for both strategies *)
+Theorem C05_subst_typed_partial : forall t s ty t',
+  map_ok s -> okt t = true -> tfrag0 t = true -> tc t = Some ty ->
+  subst_mgs_i [] s t = Some t' -> okt t' = true /\ tc t' = Some ty.
+Proof. exact subst_typed_mgs0. Qed.
+Theorem C05_subst_typed_mss_partial : forall t s ty t',
+  map_ok s -> okt t = true -> tfrag0 t = true -> tc t = Some ty ->
+  subst_mss_i [] s t = Some t' -> okt t' = true /\ tc t' = Some ty.
+Proof. exact subst_typed_mss0. Qed.
+(* ... with array values, when no key is an index constant *)
+Theorem C05_subst_typed_arr_partial : forall t s ty t',
+  map_ok s -> no_const_keys s -> okt t = true -> afrag t = true -> tc t = Some ty ->
+  subst_mgs_i [] s t = Some t' -> okt t' = true /\ tc t' = Some ty.
+Proof. exact subst_typed_mgs_arr. Qed.
+Theorem C05_subst_typed_mss_arr_partial : forall t s ty t',
+  map_ok s -> no_const_keys s -> okt t = true -> afrag t = true -> tc t = Some ty ->
+  subst_mss_i [] s t = Some t' -> okt t' = true /\ tc t' = Some ty.
+Proof. exact subst_typed_mss_arr. Qed.
+
+(* the substitution lemma for every operator except Pow: no arity or negation side conditions,
+   replacement terms arbitrary well-formed terms of the symbol's sort, every well-formed interpretation *)
+Theorem C05_subst_lemma_all_but_pow_partial : forall s t I ty t',
+  sym_keys s -> map_ok s -> okt t = true -> afrag t = true -> tc t = Some ty ->
+  no_capture s t -> wf_interp I -> subst_mgs s t = Some t' -> eval I t' = eval (upd I s) t.
+Proof. exact subst_lemma_all_but_pow. Qed.
+
+(* interp_lemma: substituting function interpretations = evaluating with the interpreted functions.
+   with_interp I p = I with every interpreted f := fun vs => eval (I + formals := vs) body.
+   interps_ok true p = every interpretation has formals of the function's parameter sorts and an okt,
+   Pow-free body of the result sort that is closed except for the formals (function names
+   included: what FunctionInterpretation checks) and - the side condition that makes this a
+   _partial - quantifier-free (an actual parameter can otherwise be captured by a binder of the body). *)
+Theorem C05_interp_lemma_partial : forall p t ty t' I,
+  interps_ok true p -> okt t = true -> afrag t = true -> tc t = Some ty -> wf_interp I ->
+  subst_interp p t = Some t' ->
+  tc t' = Some ty /\ eval I t' = eval (with_interp I p) t.
+Proof. exact interp_lemma_all_but_pow. Qed.
+
+(* the hypotheses are satisfiable (computed results) *)
+Theorem C05_subst_lemma_typed_example :
+  sym_keys e2_s /\ map_ok e2_s /\ okt e2_t = true /\ afrag e2_t = true /\ tc e2_t = Some TBool /\
+  no_capture e2_s e2_t /\ subst_mgs e2_s e2_t = Some e2_res /\ subst_mss e2_s e2_t = Some e2_res.
+Proof. exact subst_lemma_typed_example. Qed.
+Theorem C05_subst_typed_example :
+  map_ok e3_s /\ okt e3_t = true /\ afrag e3_t = true /\ tc e3_t = Some (TBV 8) /\
+  subst_mgs e3_s e3_t = Some (T (OBV BAdd 8) [T (OBV BMul 8) [e2_w; e2_w]; e2_w]) /\
+  subst_mss e3_s e3_t = Some (T (OBV BAdd 8) [T (OBVZext 8 4) [TBVC 3 4]; e2_w]).
+Proof. exact subst_typed_example. Qed.
+Theorem C05_subst_lemma_array_example :
+  sym_keys e5_s /\ map_ok e5_s /\ okt e5_t = true /\ afrag e5_t = true /\ tc e5_t = Some TBool /\
+  no_capture e5_s e5_t /\ subst_mgs e5_s e5_t = Some e5_res.
+Proof. exact subst_lemma_array_example. Qed.
+Theorem C05_interp_lemma_example :
+  interps_ok true e4_p /\ okt e4_t = true /\ afrag e4_t = true /\ tc e4_t = Some TBool /\
+  subst_interp e4_p e4_t = Some e4_res.
+Proof. exact interp_lemma_example. Qed.
+
+(* compound keys (step 4): replacing sub-terms by terms that denote the same value under I does not
+   change the value, quantifiers included - the keys that survive a binder (none of their free
+   symbols is bound) are replaced under it.  eq_keys I s = every key and its replacement have the
+   same value under I; no_capture_all s t = the property's proviso for every surviving entry. *)
+Theorem C05_subst_congruence_partial : forall s t I ty t',
+  map_ok s -> no_const_keys s -> okt t = true -> afrag t = true -> tc t = Some ty ->
+  no_capture_all s t -> wf_interp I -> eq_keys I s -> subst_mgs s t = Some t' -> eval I t' = eval I t.
+Proof. exact subst_congruence_partial. Qed.
+Theorem C05_subst_congruence_example :
+  map_ok e6_s /\ no_const_keys e6_s /\ okt e6_t = true /\ afrag e6_t = true /\ tc e6_t = Some TBool /\
+  no_capture_all e6_s e6_t /\ wf_interp e6_I /\ eq_keys e6_I e6_s /\
+  subst_mgs e6_s e6_t = Some (T (OForall [("y"%string, TInt)]) [T OAnd [T OLe [e6_w; e2_y]; T OEquals [e6_w; e2_z]]]).
+Proof. exact subst_congruence_example. Qed.
+Print Assumptions C05_subst_congruence_partial.
+
+Print Assumptions C05_subst_typed_partial.
+Print Assumptions C05_subst_typed_mss_partial.
+Print Assumptions C05_subst_typed_arr_partial.
+Print Assumptions C05_subst_lemma_all_but_pow_partial.
+Print Assumptions C05_interp_lemma_partial.
+Print Assumptions C05_subst_lemma_array_example.
